@@ -48,18 +48,31 @@ var (
 // (over all calls), multi-fault plans.
 func c06dims(env *core.Env) (B, K1, K2, K2r, K3 int) {
 	if env.Thorough() {
-		return 18, 260, 600, 2600, 60
+		return 18, 260, 1040, 2600, 60
 	}
-	return 6, 120, 90, 50, 6
+	return 6, 120, 120, 70, 6
 }
 
 func c06Scenario(env *core.Env, b int) *sim.Scenario {
 	rng := rand.New(rand.NewSource(env.Seed*7919 + int64(b)*104729 + 5))
 	// every workload kind / rolling style is among the baselines of every tier
 	all := append(append([]string{}, distinctFamilies()...), ExtraFamilies...)
-	s := genForFamily("C06", rng, all[b%len(all)])
-	// the faulty runs are compared with the fault-free one: user events are performed at the instant their trigger state
-	// is persisted, so that they meet the release at the same logical point in every run
+	// ... and so is every traffic provider kind and every way a release can end (the cleanup paths are where a fault
+	// between two writes matters most): provider and exit event are assigned round-robin, the rest is drawn
+	provs := []string{"ingress", "gateway", "custom", "none", "ingress", "custom"}
+	exits := []string{"v3", "rollback", "delete", "disable", "delete", "rollback", "v3", ""}
+	wantP, wantE := provs[b%len(provs)], exits[b%len(exits)]
+	var s *sim.Scenario
+	for try := 0; try < 200; try++ {
+		s = genForFamily("C06", rng, all[b%len(all)])
+		if providerKind(s.Provider) == wantP || (wantP == "ingress" && strings.HasPrefix(s.Provider, "ingress")) {
+			break
+		}
+	}
+	if wantE != "" && !(wantE == "v3" && s.Style == "bluegreen") && !s.RollbackInBatch {
+		n := len(s.Steps)
+		s.Events = []sim.Injected{{AtStep: 1 + rng.Intn(n), AtState: states[rng.Intn(4)], Action: wantE}}
+	}
 	for i := range s.Events {
 		s.Events[i].Immediate = true
 	}
@@ -88,13 +101,44 @@ func c06Baseline(env *core.Env, b int) *baselineInfo {
 	if err != nil {
 		bi.err = err.Error()
 	} else {
-		seen := map[string]bool{}
+		// read calls by class; the rarest classes first: a call site that is reached once or twice in a whole release
+		// sits at a transition, the ones reached hundreds of times are the steady-state polling reads
+		first, count := map[string]int{}, map[string]int{}
 		for i, c := range r.CallClasses {
-			if !(strings.Contains(c, " get ") || strings.Contains(c, " list ")) || seen[c] {
+			if !(strings.Contains(c, " get ") || strings.Contains(c, " list ")) {
 				continue
 			}
-			seen[c] = true
-			bi.readPoints = append(bi.readPoints, i+1)
+			if _, ok := first[c]; !ok {
+				first[c] = i + 1
+			}
+			count[c]++
+		}
+		var classes []string
+		for c := range first {
+			classes = append(classes, c)
+		}
+		// classes reached while a cleanup sequence is running (a cleanup task is persisted, the Rollout is terminating /
+		// disabling, the BatchRelease is finalizing or going away) come first: that is where C05 / C10 / C18 live
+		cleanup := func(c string) bool {
+			tag := c[strings.Index(c, "@")+1:]
+			ro := strings.TrimSpace(strings.SplitN(tag, "|", 2)[0])
+			parts := strings.Split(ro, "/")
+			if len(parts) == 4 && parts[3] != "" && parts[3] != "END" {
+				return true
+			}
+			return strings.Contains(tag, "Terminating") || strings.Contains(tag, "Disabling") || strings.Contains(tag, "Finalizing") || strings.Contains(tag, "deleting") || strings.Contains(tag, "Cancelling")
+		}
+		sort.Slice(classes, func(i, j int) bool {
+			if cleanup(classes[i]) != cleanup(classes[j]) {
+				return cleanup(classes[i])
+			}
+			if count[classes[i]] != count[classes[j]] {
+				return count[classes[i]] < count[classes[j]]
+			}
+			return first[classes[i]] < first[classes[j]]
+		})
+		for _, c := range classes {
+			bi.readPoints = append(bi.readPoints, first[c])
 			bi.readClass = append(bi.readClass, c)
 		}
 		bi.writes, bi.calls, bi.writeCalls = r.CtrlWrites(), r.CtrlCalls(), r.CtrlWriteCalls()
@@ -116,7 +160,7 @@ func c06Baseline(env *core.Env, b int) *baselineInfo {
 func init() {
 	core.Register(&core.Check{
 		ID: "C06", Level: "fault_enumeration", ChunkSize: 1, Relevant: "faults_fired",
-		Rule: "cases = baseline scenario b (seed-determined closed-loop scenario incl. exit events) x fault f: a crash after the k-th controller write (k spread evenly over all controller writes of the baseline; every write in the thorough tier), an error / conflict / lost-response / timeout at the j-th controller WRITE call (every write call of the baseline at least once in the quick tier, with all four kinds in the thorough tier), an error / timeout at read calls (quick: one per distinct class (actor, verb, kind, rollout phase / cleanup task, batchrelease phase) of the baseline's read calls; thorough: every call), or a random multi-fault plan. " +
+		Rule: "cases = baseline scenario b (seed-determined closed-loop scenario incl. exit events) x fault f: a crash after the k-th controller write (k spread evenly over all controller writes of the baseline; every write in the thorough tier), an error / conflict / timeout instead of, or a lost response after, the k-th controller write that changes the store (every such write of the baseline at least once in the quick tier, with all four kinds in the thorough tier), an error / timeout at read calls (quick: one per distinct class (actor, verb, kind, rollout phase / cleanup task, batchrelease phase) of the baseline's read calls; thorough: every call), or a random multi-fault plan. " +
 			"Each faulty run is judged against the fault-free baseline of the same scenario: monitors (C01-C05, C09-C11, C18) that were silent in the baseline stay silent, the terminal state is still reached within the budget, the configuration projection (workload strategy, ReplicaSet minReadySeconds, HPA target, Service selectors, routes, BatchRelease cursor, canary Deployments) at the first time each step is persisted as paused equals the baseline's at the same point, and the final user-visible projection equals the baseline's. distinct = (scenario family, fault kind, faulted actor/verb/kind site).",
 		Assumptions: []string{
 			"crash = CrashSignal panic right after a committed controller write; all reconcilers are rebuilt, grace and creation expectations reset, queues dropped, every object replayed as a create event",
@@ -144,6 +188,9 @@ func c06Case(env *core.Env, idx int) *core.CaseResult {
 		res.AddSet("baseline_problems", bi.err)
 		return res
 	}
+	if f == 0 {
+		res.AddSet("baselines", fmt.Sprintf("b%d %s/%s/%s writes=%d writeCalls=%d calls=%d readClasses=%d events=%v", b, bi.scenario.Kind, bi.scenario.Style, bi.scenario.Provider, bi.writes, bi.writeCalls, bi.calls, len(bi.readPoints), bi.userActs))
+	}
 	s := cloneScenario(bi.scenario)
 	fp := &sim.FaultPlan{}
 	kind := ""
@@ -160,21 +207,30 @@ func c06Case(env *core.Env, idx int) *core.CaseResult {
 		}
 		fp.CrashAfterWrite = k
 	case f < K1+K2:
-		// the j-th write call of the controllers fails; with K2 >= 4 x write calls every call meets every kind
+		// the k-th controller write that would change the store fails (error / conflict / timeout before it commits) or
+		// commits and loses its response; with K2 >= 4 x writes every write meets every kind
 		j := f - K1
 		kinds := []string{"error", "conflict", "lost", "timeout"}
-		if K2 >= 4*bi.writeCalls && bi.writeCalls > 0 {
-			if j >= 4*bi.writeCalls {
+		n := bi.writes
+		switch {
+		case n == 0:
+			res.Count("fault_points_beyond_baseline", 1)
+			return res
+		case K2 >= 4*n:
+			if j >= 4*n {
 				res.Count("fault_points_beyond_baseline", 1)
 				return res
 			}
-			fp.FailWriteCall, kind = 1+j/4, kinds[j%4]
-		} else if K2 >= bi.writeCalls && bi.writeCalls > 0 {
-			// every write call once (kind rotating with the call), the remainder a second kind
-			fp.FailWriteCall = 1 + j%bi.writeCalls
-			kind = kinds[(j%bi.writeCalls+j/bi.writeCalls)%4]
-		} else {
-			fp.FailWriteCall, kind = 1+j*bi.writeCalls/K2, kinds[j%4]
+			fp.FailCommit, kind = 1+j/4, kinds[j%4]
+		case K2 >= n:
+			if j >= n {
+				// second pass with another kind over a spread of the writes
+				fp.FailCommit, kind = 1+((j-n)*n/(K2-n+1))%n, kinds[(j+2)%4]
+			} else {
+				fp.FailCommit, kind = 1+j, kinds[j%4]
+			}
+		default:
+			fp.FailCommit, kind = 1+j*n/K2, kinds[j%4]
 		}
 		fp.FailKind = kind
 	case f < K1+K2+K2r:
@@ -183,7 +239,7 @@ func c06Case(env *core.Env, idx int) *core.CaseResult {
 		fp.FailCall = 1 + j*bi.calls/K2r
 		if K2r < bi.calls && len(bi.readPoints) > 0 {
 			// one read per distinct (call site, rollout phase, batchrelease phase) class, spread over the classes
-			fp.FailCall = bi.readPoints[(j*len(bi.readPoints)/K2r)%len(bi.readPoints)]
+			fp.FailCall = bi.readPoints[j%len(bi.readPoints)] // the K2r rarest classes
 			if len(bi.readPoints) <= K2r {
 				if j >= len(bi.readPoints) {
 					res.Count("fault_points_beyond_baseline", 1)
